@@ -481,7 +481,7 @@ def run_impl(parts, ops_of, gdir, tdir, tag, binprefix="evc_s"):
         cmds, keys = [], []
         for k, cs in todo.items():
             p = os.path.join(gdir, "%s_ops_%d.txt" % (tag, k))
-            write_lines(p, ["%s %s" % (c.cid, " ".join(ops_of(c))) for c in cs])
+            write_lines(p, ["%s %s" % (c.cid, " ".join(getattr(c, "_resume_ops", None) or ops_of(c))) for c in cs])
             cmds.append([os.path.join(tdir, "debug", "%s%d" % (binprefix, k)), p])
             keys.append(k)
         res = run_parallel(cmds, timeout=3000)
@@ -521,10 +521,32 @@ def run_impl(parts, ops_of, gdir, tdir, tag, binprefix="evc_s"):
                 errs.append("generated shard %d exited with %d after completing every case: %s" % (k, rc, err[-300:]))
                 pending[k] = []
             else:
-                obs[(crashed.cid, "crash")] = "ABORT rc=%d %s" % (rc, err.strip().splitlines()[0][:200] if err.strip() else "")
                 for (cid, kind), val in o.items():
                     if cid == crashed.cid:
                         obs[(cid, kind)] = val
+                # observations are flushed per operation: the first one without a line was running
+                wanted = ops_of(crashed) if not getattr(crashed, "_resume_ops", None) else crashed._resume_ops
+                during, after = None, []
+                for i, op in enumerate(wanted):
+                    base = op.split(":")[0]
+                    if base in ("cross", "load", "dty"):
+                        continue     # run by the generated code after the others
+                    if not any(cid == crashed.cid and (kind == op or kind.split(":")[0] == base) for (cid, kind) in o):
+                        during, after = base, wanted[i + 1:]
+                        break
+                if during is None:
+                    # the operations run by the generated code after run_case, in its order
+                    for base in ("cross", "load", "dty"):
+                        want = [op for op in wanted if op.split(":")[0] == base]
+                        if want and not any(cid == crashed.cid and kind.split(":")[0] == base for (cid, kind) in o):
+                            during = base
+                            break
+                msg = "ABORT rc=%d during=%s %s" % (rc, during or "?", err.strip().splitlines()[0][:200] if err.strip() else "")
+                obs[(crashed.cid, "crash")] = (obs[(crashed.cid, "crash")] + " ; " + msg) if (crashed.cid, "crash") in obs else msg
+                if during and after:
+                    # the rest of the crashed case's operations still run
+                    crashed._resume_ops = after
+                    rest = [crashed] + rest
                 pending[k] = rest
     else:
         errs.append("generated shards kept aborting (more than 40 restarts)")
@@ -827,7 +849,7 @@ def run_campaign(tier):
             cr.append("alloc:" + b)
         if (x.cid, "dty") in c.iobs:
             cr.append("dty")
-        return cr + ["tinfo", "ser", "feed", "full", "eps:" + b, "schema", "wfault:%d" % c.steps[x.cid], "flips:" + b, "place:" + b,
+        return cr + ["tinfo", "ser", "feed", "full", "eps:" + b, "schema", "wfault:%d" % c.steps[x.cid], "rfault:%d" % c.steps[x.cid], "flips:" + b, "place:" + b,
                 "cuts:%s:%d" % (b, c.steps[x.cid]),
                 "tags:%s:%s" % (b, ",".join(str(n) for n in c.tagc[x.cid]))]
 
